@@ -12,7 +12,7 @@
       covering [q]; [get_spm_prefix] is the prefix of that; [get_lpm] is its last element.
     Proofs: Lookup2.v, IterExtra.v. *)
 From Coq Require Import List NArith Sorted Lia.
-From PT Require Import Lookup Lookup2 IterExtra.
+From PT Require Import Lookup Lookup2 IterExtra Arena Arena3 ArenaProps.
 From PT.Properties Require Import Common.
 Import ListNotations.
 Local Open Scope nat_scope.
@@ -200,6 +200,18 @@ Proof.
   split; [apply C09_get_spm_first|]. split; [apply C09_get_spm_prefix | apply C09_get_lpm_last].
 Qed.
 
+(** * The same statement about the ARENA-level transcription of the code (Arena*.v; ArenaProps.v
+      composes the refinement [Rep] with the tree-level theorem).  [areach am]: [am] is reached from
+      the empty arena by a history of arena-level mutator calls with valid prefixes. *)
+Theorem C09_arena (am : amap pfx V) (es : list (pfx * V)) (q : pfx) :
+  areach pfx V (peq w) (contains w fl) (is_bit_set w) plen (lcp w fl) pzero (okp w) am -> okp w q -> a_entries pfx V am = Ok es ->
+  Arena3.a_cover pfx V (peq w) (contains w fl) (is_bit_set w) plen am q = Ok (filter (IterExtra.covering pfx V (kbits w) q) es) /\
+  StronglySorted (Lookup2.len_lt pfx V (kbits w)) (filter (IterExtra.covering pfx V (kbits w) q) es) /\
+  Arena3.a_get_spm pfx V (peq w) (contains w fl) (is_bit_set w) plen am q = Ok (hd_error (filter (IterExtra.covering pfx V (kbits w) q) es)) /\
+  Arena3.a_get_spm_prefix pfx V (peq w) (contains w fl) (is_bit_set w) plen am q
+  = Ok (option_map fst (hd_error (filter (IterExtra.covering pfx V (kbits w) q) es))).
+Proof. exact (arena_C09_cover pfx V _ _ _ _ _ _ _ _ _ (laws w fl Hw) am es q). Qed.
+
 End C09.
 
 (** non-vacuity: a reachable state with a value-less leftover ON the path to the query (128/1
@@ -241,3 +253,4 @@ Print Assumptions C09_get_lpm_last.
 Print Assumptions C09_get_spm.
 Print Assumptions C09_shape_independent.
 Print Assumptions C09_reachable.
+Print Assumptions C09_arena.
